@@ -100,7 +100,15 @@ def eval_case(case):
         ci.compose.respin = respin + 1
         ci.compose.type = "nightly" if x["ctype"] != "nightly" else "test"
         sfx2 = ".n" if x["ctype"] != "nightly" else ".t"
-        exp2 = exp[:exp.rindex("-") + 1] + "%s%s.%d" % (date, sfx2, respin + 1)
+        # ... and other release / base-product types, assigned to the same objects
+        rt2 = "eus" if x["type"] != "eus" else "ga"
+        ci.release.type = rt2
+        exp2 = "%s-%s%s" % (x["short"], ver, "" if rt2 == "ga" else "-" + rt2)
+        if x["layered"]:
+            bt2 = "updates" if x["bptype"] != "updates" else "ga"
+            ci.base_product.type = bt2
+            exp2 += "-%s-%s%s" % (x["bpshort"], bpver, "" if bt2 == "ga" else "-" + bt2)
+        exp2 += "-%s%s.%d" % (date, sfx2, respin + 1)
         try:
             cid2 = ci.create_compose_id()
             if cid2 != exp2:
